@@ -562,7 +562,7 @@ func init() {
 		},
 		Class{
 			ID:   "C01-for-name-comment",
-			What: "'for name' without 'in' followed by a comment before 'do' or on its line (SingleLine prints 'for a# c')",
+			What: "'for name' without 'in' with a comment before 'do' or on its line, or between a preceding '|' and the for keyword (SingleLine prints 'for a# c')",
 			Match: func(c *Ctx) bool {
 				return c.anyNode(func(i int, it norm.Item) bool {
 					wi, ok := it.Node.(*syntax.WordIter)
@@ -573,10 +573,77 @@ func init() {
 					if !ok {
 						return false
 					}
+					stmt := c.Items[it.Parent].Parent
 					return c.anyNode(func(_ int, jt norm.Item) bool {
 						cm, ok := jt.Node.(*syntax.Comment)
+						if ok && jt.Parent == stmt && stmt >= 0 && fc.ForPos.After(cm.Hash) {
+							// a comment between "|" and the for keyword
+							// belongs to the loop's statement and is
+							// printed after the name just the same
+							return true
+						}
 						return ok && !wi.Name.End().After(cm.Hash) && cm.Hash.Line() <= fc.DoPos.Line()
 					})
+				})
+			},
+		},
+	)
+}
+
+func init() {
+	Classes = append(Classes,
+		Class{
+			ID:   "C01-keeppadding-procsubst-command",
+			What: "KeepPadding: a command whose first word starts with a process substitution and that has redirections",
+			Match: func(c *Ctx) bool {
+				if !c.Cfg.KeepPadding {
+					return false
+				}
+				return c.anyNode(func(i int, it norm.Item) bool {
+					ce, ok := it.Node.(*syntax.CallExpr)
+					if !ok || len(ce.Args) == 0 || len(ce.Args[0].Parts) == 0 || it.Parent < 0 {
+						return false
+					}
+					if _, ok := ce.Args[0].Parts[0].(*syntax.ProcSubst); !ok {
+						return false
+					}
+					st, ok := c.Items[it.Parent].Node.(*syntax.Stmt)
+					return ok && len(st.Redirs) > 0
+				})
+			},
+		},
+		Class{
+			ID:   "C01-minify-pipe-amp-redirect",
+			What: "Minify: a pipeline whose right side starts with a redirection operator beginning with '&'",
+			Match: func(c *Ctx) bool {
+				if !c.Cfg.Minify {
+					return false
+				}
+				return c.anyNode(func(_ int, it norm.Item) bool {
+					b, ok := it.Node.(*syntax.BinaryCmd)
+					if !ok || b.Y == nil || (b.Op != syntax.Pipe && b.Op != syntax.PipeAll) {
+						return false
+					}
+					for _, r := range b.Y.Redirs {
+						if strings.HasPrefix(r.Op.String(), "&") && (b.Y.Cmd == nil || b.Y.Cmd.Pos().After(r.OpPos)) {
+							return true
+						}
+					}
+					return false
+				})
+			},
+		},
+		Class{
+			ID:   "C01-funcbody-subshell-paren",
+			What: "a function whose body is a subshell starting with an arithmetic command or another subshell",
+			Match: func(c *Ctx) bool {
+				return c.anyNode(func(_ int, it norm.Item) bool {
+					fd, ok := it.Node.(*syntax.FuncDecl)
+					if !ok || fd.Body == nil {
+						return false
+					}
+					sub, ok := fd.Body.Cmd.(*syntax.Subshell)
+					return ok && LoneSubshellParen(sub)
 				})
 			},
 		},
